@@ -111,12 +111,20 @@ fn jspans(out: &mut String, r: lexpr::datum::Ref<'_>) {
         let mut first = true;
         let mut it = it;
         loop {
-            match it.next() {
+            // peek() must announce exactly what next() then yields (C10: same structure as the value's own iterator)
+            let pk = it.peek().map(|r| r.span());
+            let nx = it.next();
+            if pk != nx.as_ref().map(|r| r.span()) { if !first { out.push(','); } first = false; out.push_str("{\"peek_differs_from_next\":true}"); }
+            match nx {
                 Some(e) => { if !first { out.push(','); } first = false; jspans(out, e); }
                 None => {
                     // either exhausted or the dot marker before a tail
                     if it.is_empty() { break; }
-                    if let Some(e) = it.next() { if !first { out.push(','); } first = false; out.push_str("{\"dot\":"); jspans(out, e); out.push('}'); }
+                    let pk = it.peek().map(|r| r.span());
+                    if let Some(e) = it.next() {
+                        if pk != Some(e.span()) { if !first { out.push(','); } first = false; out.push_str("{\"peek_differs_from_next\":true}"); }
+                        if !first { out.push(','); } first = false; out.push_str("{\"dot\":"); jspans(out, e); out.push('}');
+                    }
                     break;
                 }
             }
@@ -126,6 +134,33 @@ fn jspans(out: &mut String, r: lexpr::datum::Ref<'_>) {
         out.push_str(",\"vec\":[");
         let mut first = true;
         for e in it { if !first { out.push(','); } first = false; jspans(out, e); }
+        out.push(']');
+    }
+    out.push('}');
+}
+
+/// the same tree as `jspans`, but lists are walked cell by cell through `Ref::as_pair`
+fn jspans_pairs(out: &mut String, r: lexpr::datum::Ref<'_>) {
+    let sp = r.span();
+    write!(out, "{{\"s\":[{},{}],\"e\":[{},{}]", sp.start().line(), sp.start().column(), sp.end().line(), sp.end().column()).unwrap();
+    if r.as_pair().is_some() {
+        out.push_str(",\"list\":[");
+        let mut first = true;
+        let mut cur = r;
+        loop {
+            match cur.as_pair() {
+                Some((a, d)) => { if !first { out.push(','); } first = false; jspans_pairs(out, a); cur = d; }
+                None => {
+                    if !cur.value().is_null() { if !first { out.push(','); } out.push_str("{\"dot\":"); jspans_pairs(out, cur); out.push('}'); }
+                    break;
+                }
+            }
+        }
+        out.push(']');
+    } else if let Some(it) = r.vector_iter() {
+        out.push_str(",\"vec\":[");
+        let mut first = true;
+        for e in it { if !first { out.push(','); } first = false; jspans_pairs(out, e); }
         out.push(']');
     }
     out.push('}');
@@ -157,7 +192,7 @@ impl std::io::Read for FaultReader {
 }
 
 fn run_parser<'a, R: lexpr::parse::Read<'a>>(mut p: Parser<R>, api: &str, out: &mut String) {
-    if api == "spans" {
+    if api == "spans" || api == "spans_pairs" {
         out.push_str("{\"spans\":[");
         let mut n = 0;
         loop {
@@ -165,7 +200,7 @@ fn run_parser<'a, R: lexpr::parse::Read<'a>>(mut p: Parser<R>, api: &str, out: &
                 Ok(Some(d)) => {
                     if n > 0 { out.push(','); }
                     n += 1;
-                    jspans(out, d.as_ref());
+                    if api == "spans" { jspans(out, d.as_ref()); } else { jspans_pairs(out, d.as_ref()); }
                 }
                 Ok(None) => break,
                 Err(e) => { if n > 0 { out.push(','); } jerr(out, &e); break; }
@@ -424,6 +459,69 @@ fn cons_check(out: &mut String) {
         }
         if bad.len() > 5 { break; }
     }
+    // lists built from iterators that promise nothing about their length (size_hint lower bound 0)
+    for (got, want) in [
+        (Value::list((1..=6u32).filter(|n| n % 2 == 1)), "(1 3 5)"),
+        (Value::append((1..4u32).filter(|_| true), Value::from(7u32)), "(1 2 3 . 7)"),
+        (Value::list("a b  c".split_whitespace()), "(\"a\" \"b\" \"c\")"),
+        (Value::list(std::iter::from_fn({ let mut n = 0u32; move || { n += 1; if n < 3 { Some(n) } else { None } } })), "(1 2)"),
+        (Value::append((0..0u32).filter(|_| true), Value::from(9u32)), "9"),
+        (Value::list(Vec::<u32>::new()), "()"),
+    ] {
+        cases += 1;
+        let p = lexpr::to_string(&got).unwrap();
+        if p != want { bad.push(format!("list built from an unsized iterator prints as {}, expected {}", p, want)); }
+    }
+    write!(out, "{{\"cases\":{},\"bad\":[", cases).unwrap();
+    for (i, b) in bad.iter().take(5).enumerate() {
+        if i > 0 { out.push(','); }
+        jstr(out, b.as_bytes());
+    }
+    out.push_str("]}");
+}
+
+/// C20 / C04: primitive conversions into Value keep the payload exactly
+fn num_check(out: &mut String) {
+    let mut bad: Vec<String> = Vec::new();
+    let mut cases = 0usize;
+    macro_rules! ints { ($t:ty, $($x:expr),*) => { $( {
+        cases += 1;
+        let x: $t = $x; let v = Value::from(x); let want = x as i128;
+        let got = v.as_i64().map(|i| i as i128).or(v.as_u64().map(|u| u as i128));
+        if got != Some(want) || v.as_f64() != Some(x as f64) || !v.is_number() {
+            bad.push(format!("Value::from({}{}) holds {:?} / as_f64 {:?}", x, stringify!($t), got, v.as_f64()));
+        }
+    } )* } }
+    ints!(u8, 0, 1, 127, 128, 255); ints!(u16, 0, 255, 256, 65535); ints!(u32, 0, 65536, u32::MAX); ints!(u64, 0, 1 << 32, i64::MAX as u64, 1 << 53);
+    ints!(i8, i8::MIN, -1, 0, 1, i8::MAX); ints!(i16, i16::MIN, -129, -1, 0, i16::MAX); ints!(i32, i32::MIN, -32769, -1, 0, i32::MAX);
+    ints!(i64, i64::MIN + 1, -(1 << 53), -1, 0, 1 << 53);
+    for x in [u64::MAX, (i64::MAX as u64) + 1] { cases += 1; let v = Value::from(x); if v.as_u64() != Some(x) || v.as_i64().is_some() { bad.push(format!("Value::from({}u64) holds {:?}", x, v.as_u64())); } }
+    { cases += 1; let v = Value::from(i64::MIN); if v.as_i64() != Some(i64::MIN) || v.as_u64().is_some() { bad.push("Value::from(i64::MIN)".to_string()); } }
+    for x in [0.0f32, -0.0, 0.1, 0.3, 0.5, 1.5, -2.25, 3.14159, 1e-3, 1.0 + f32::EPSILON, f32::MAX, f32::MIN, f32::MIN_POSITIVE, 1e-45, 16777216.0, f32::INFINITY, f32::NEG_INFINITY] {
+        cases += 1;
+        let v = Value::from(x);
+        if v.as_f64().map(f64::to_bits) != Some((x as f64).to_bits()) || v.as_i64().is_some() || v.as_u64().is_some() {
+            bad.push(format!("Value::from({:e}f32).as_f64() = {:?}, expected {:e}", x, v.as_f64(), x as f64));
+        }
+        if !(v == x) || !(x == v) { bad.push(format!("Value::from({:e}f32) != {:e}f32", x, x)); }
+    }
+    for x in [0.0f64, -0.0, 0.1, 1e21, 5e-324, f64::MAX, f64::MIN_POSITIVE, 1.0 + f64::EPSILON, f64::INFINITY, f64::NEG_INFINITY] {
+        cases += 1;
+        let v = Value::from(x);
+        if v.as_f64().map(f64::to_bits) != Some(x.to_bits()) || v.as_i64().is_some() { bad.push(format!("Value::from({:e}f64).as_f64() = {:?}", x, v.as_f64())); }
+        if !(v == x) || !(x == v) { bad.push(format!("Value::from({:e}f64) != itself", x)); }
+    }
+    { cases += 1; let v = Value::from(f64::NAN); if !v.as_f64().map_or(false, f64::is_nan) { bad.push("Value::from(NaN)".to_string()); } }
+    // comparisons with bool for every kind (C20): only a Bool value equals a bool
+    let kinds = vec![Value::Nil, Value::Null, Value::Bool(true), Value::Bool(false), Value::from(0u64), Value::from(1u64), Value::from(0.0f64), Value::from('t'),
+        Value::string("true"), Value::symbol("t"), Value::symbol("nil"), Value::keyword("f"), Value::bytes(vec![0u8]), Value::cons(1, 2), Value::vector(Vec::<Value>::new())];
+    for v in &kinds {
+        for b in [true, false] {
+            cases += 1;
+            let want = v.as_bool() == Some(b);
+            if (*v == b) != want || (b == *v) != want { bad.push(format!("{} == {} is {} / {}, as_bool() is {:?}", v, b, *v == b, b == *v, v.as_bool())); }
+        }
+    }
     write!(out, "{{\"cases\":{},\"bad\":[", cases).unwrap();
     for (i, b) in bad.iter().take(5).enumerate() {
         if i > 0 { out.push(','); }
@@ -640,6 +738,7 @@ fn main() {
         "printcheck" => print_check(&mut out),
         "alistcheck" => alist_check(&mut out),
         "conscheck" => cons_check(&mut out),
+        "numcheck" => num_check(&mut out),
         "stack" => {
             // stack <op> <n> [dotted]: run one list-walking operation on an n-element list on a 2 MiB thread
             let op = a[2].clone();
